@@ -212,7 +212,7 @@ impl<'a> G<'a> {
             // proper signature by a key that never registered
             (50 + self.rng.below(2) as i64, 0)
         } else {
-            (-1, 1 + self.rng.below(6) as u8)
+            (-1, 1 + self.rng.below(7) as u8)
         }
     }
 
